@@ -26,7 +26,7 @@ SeqsUpTo(S, n) == UNION {[1..k -> S] : k \in 0..n}
 Leaves ==
   {Lit("null"), Lit("true"), Num(<<48>>), Str(<<34, 92>>)}
   \cup (IF BigLeaves THEN {Lit("false"), Num(<<45, 49, 46, 53, 101, 43, 50>>), Str(<<>>), Str(<<10, 1, 128512>>)} ELSE {})
-Keys == {<<97>>, <<34, 10>>}
+Keys == IF BigLeaves THEN {<<97>>, <<34, 10>>} ELSE {<<34, 10>>}
 Level(S) ==
   S \cup {Arr(kids) : kids \in SeqsUpTo(S, MaxKids)}
     \cup UNION {{Obj(ks, vs) : ks \in [1..n -> Keys], vs \in [1..n -> S]} : n \in 0..MaxKids}
